@@ -272,6 +272,17 @@ func (p *Prog) runProperty(prop, tier string, timeout int) *checkRun {
 	for _, r := range run.results {
 		run.solverTime += r.TimeS
 	}
+	// relational encode/decode contracts (wire.go)
+	if hasProp(p.wireProps, prop) {
+		for _, r := range p.wireResults(filepath.Join(dir, "wire")) {
+			run.results = append(run.results, r)
+			run.solverTime += r.TimeS
+			if r.Status == "unsat" {
+				run.funcs = append(run.funcs, r.Ob.Func, strings.TrimSuffix(r.Ob.Func, ".encode")+".decode")
+			}
+		}
+		run.assumptions["A-wire: the encode/decode pair of a message type is compared token by token per protocol version (lockstep loop rule: dual bodies, the count is the length token written/read before the loop); values carried by the tokens (which field a token comes from or goes to) are not compared; blocks out of reach of the extractor stay opaque"] = true
+	}
 	// axioms imported from Lean: compile the file; the lemma obligation is discharged iff Lean accepts it
 	// without errors and without sorry
 	for _, lp := range p.leanProofs {
